@@ -9,10 +9,10 @@ import "math"
 type ival struct{ lo, hi int64 }
 
 type Facts struct {
-	m     map[string]ival
-	undo  [][]undoRec
-	Hits  int
-	Miss  int
+	m    map[string]ival
+	undo [][]undoRec
+	Hits int
+	Miss int
 }
 type undoRec struct {
 	k   string
@@ -21,7 +21,7 @@ type undoRec struct {
 }
 
 func NewFacts() *Facts { return &Facts{m: map[string]ival{}, undo: [][]undoRec{nil}} }
-func (f *Facts) Push()  { f.undo = append(f.undo, nil) }
+func (f *Facts) Push() { f.undo = append(f.undo, nil) }
 func (f *Facts) Pop() {
 	u := f.undo[len(f.undo)-1]
 	f.undo = f.undo[:len(f.undo)-1]
